@@ -38,8 +38,11 @@ def cases(tier, seed):
     n = 24 if tier == 'quick' else 400
     for i in range(n):
         spec = dag.gen_spec(core.rng_for(seed, 'c03spec', i))
+        # library() nodes are shared, dual-use or static, as the project is configured
+        margs = [[], ['--enable-static'], ['--disable-shared', '--enable-static']][i % 3]
+        dag.set_mode(spec, *dag.mode_of_args(margs))
         for backend in ('make', 'ninja'):
-            yield {'spec': spec, 'backend': backend, 'index': i,
+            yield {'spec': spec, 'backend': backend, 'index': i, 'conf_args': margs,
                    'max_touch': 8 if tier == 'quick' else 1000,
                    'max_fail': 2 if tier == 'quick' else 6,
                    'touch_seed': '%d/%d' % (seed, i)}
@@ -141,7 +144,7 @@ def run_case(case):
         return run_jbos(case)
     res = CaseResult()
     spec, backend = case['spec'], case['backend']
-    p = dagrun.Project(spec, backend, stub_install=True)
+    p = dagrun.Project(spec, backend, stub_install=True, conf_args=case.get('conf_args', ()))
     m = p.model
     wb = {'backend': backend, 'index': case.get('index')}
     try:
